@@ -192,10 +192,10 @@ def r7_cursor_loops(text):
     for c in XS {  (XS a plain identifier path)  ->  cursor while-loop."""
     cnt = 0
 
-    def mk(ind, idx, var, xs, mutk, deref_pat=None):
+    def mk(ind, idx, var, xs, mutk, deref_pat=None, cursor=None):
         nonlocal cnt
         cnt += 1
-        cur = f'{var}_nx'
+        cur = cursor or f'{var}_nx'
         b = '&mut ' if mutk == 'iter_mut' else '&'
         ix = idx if idx else f'{var}_ix'
         bind = f'let {var} = {b}{xs}[{ix}];' if not deref_pat else f'let {var} = {xs}[{ix}];'
@@ -203,11 +203,11 @@ def r7_cursor_loops(text):
                 f'{ind}    let {ix} = {cur}; {cur} += 1;\n{ind}    {bind}')
 
     def repl_enum(m):
-        return mk(m.group(1), m.group(2), m.group(3), m.group(4), m.group(5))
+        return mk(m.group(1), m.group(2), m.group(3), m.group(4), m.group(5), cursor=m.group(2) + '_nx')
     text = re.sub(r'(?m)^(\s*)for \((\w+), (\w+)\) in ([\w\.]+)\.(iter|iter_mut)\(\)\.enumerate\(\) \{', repl_enum, text)
 
     def repl_enum_deref(m):
-        return mk(m.group(1), m.group(2), m.group(3), m.group(4), 'iter', deref_pat=True)
+        return mk(m.group(1), m.group(2), m.group(3), m.group(4), 'iter', deref_pat=True, cursor=m.group(2) + '_nx')
     text = re.sub(r'(?m)^(\s*)for \((\w+), &(\w+)\) in ([\w\.]+)\.iter\(\)\.enumerate\(\) \{', repl_enum_deref, text)
 
     def repl_plain(m):
@@ -353,6 +353,8 @@ def r14_std(text):
             raise RuleError('R14: from_be_bytes shape')
         text = text[:m.start()] + f'{m.group(1)}_from_be_bytes(' + text[ob + 1:cb] + ')' + text[cb + 2:]
         n += 1
+    text, k = re.subn(r'(?<![\w\.:])min\(', 'cmp_min_i32(', text)
+    n += k
     text, k = re.subn(r'\bf64::NEG_INFINITY\b', 'f64_neg_infinity()', text)
     n += k
     text, k = re.subn(r'\bf64::INFINITY\b', 'f64_infinity()', text)
